@@ -1179,15 +1179,21 @@ def norm_inst(info: OpInfo, inst):
 # known-finding classes (predicates on the case / operation, never "any failure")
 
 
-def known_class(case, real) -> str | None:
-    """id of the known finding whose witness CLASS this failing case belongs to"""
+def known_class(case, real, active=None) -> str | None:
+    """id of the known finding whose witness CLASS this failing case belongs to.  A case may belong to
+    several classes (e.g. a mutation of one class on an operation of another): a class that is still
+    listed as unfixed is preferred; a class that only matches a fixed entry suppresses nothing."""
+    hits = []
     for kid, pred in KNOWN_CLASSES:
         try:
             if pred(case, real):
-                return kid
+                hits.append(kid)
         except BaseException:
             continue
-    return None
+    for kid in hits:
+        if active is None or kid in active:
+            return kid
+    return hits[0] if hits else None
 
 
 KNOWN_CLASSES: list = []     # filled in below, next to the descriptions of the findings
@@ -1291,7 +1297,7 @@ def family_generated(ctx: Ctx, cases):
             ok = bool(r["custom_ok"]) and bool(r["generic_ok"])
             if not ok:
                 why = r["custom_why"] if not r["custom_ok"] else "generic form: " + r["generic_why"]
-                kid = known_class(c, r)
+                kid = known_class(c, r, active)
                 if kid and kid in active:
                     known_hits[kid] = known_hits.get(kid, 0) + 1
                 else:
@@ -1595,14 +1601,53 @@ def _is_function_type_result(case, real):
     return len(tys) == 1 and isinstance(table.entry(tys[0])[0], FunctionType)
 
 
+def _opt_attr_before_dict(info: OpInfo):
+    """(isprop, name, reserved, expected) when the format has an OPTIONAL attribute variable in full syntax
+    (parse_optional_attribute) whose next element is an attr-dict without keyword -- as the only element of an
+    optional group anchored on itself, or at top level -- else None.  (smt.declare_fun: ($namePrefix^)? attr-dict)"""
+    fmt = info.fmt
+    for k, dterm in enumerate(fmt[:-1]):
+        nxt = fmt[k + 1]
+        if not (nxt[0] == "DE" and nxt[1][0] == "EAttrDict" and not nxt[1][1]):
+            continue
+        if dterm[0] == "DGroup":
+            last = dterm[3][-1] if dterm[3] else dterm[2]
+        else:
+            last = dterm[1]
+        if last[0] == "EAttr" and last[3] == ("AKGeneric",) and last[4]:
+            return (last[2], last[1], nxt[1][2], nxt[1][3])
+    return None
+
+
+def _optional_attr_swallows_dict(case, real) -> bool:
+    """C05-kf-4 class: the optional attribute in front of attr-dict is absent and the dictionary that is
+    printed is not empty (whatever put an entry into it); the failure is that the dictionary became the
+    attribute (properties/attributes differ on that name) or that the text no longer parses"""
+    hit = _opt_attr_before_dict(real["info"])
+    if hit is None:
+        return False
+    isprop, name, reserved, expected = hit
+    inst = real["inst"]
+    held = dict(map(tuple, inst["props" if isprop else "attrs"]))
+    if name in held:
+        return False
+    printed = [n for n, _ in inst["attrs"] if n not in reserved] + [n for n, _ in inst["props"] if n in expected]
+    if not printed:
+        return False
+    why = real["custom_why"] or ""
+    return (why.startswith(("properties differ: [('%s'" % name, "attributes differ: [('%s'" % name))
+            or why.startswith("parsing the custom form raises"))
+
+
 KNOWN_CLASSES += [
+    # (fixed by 0150b3e) the discardable operandSegmentSizes attribute is LOST by the custom round trip
     ("C05-kf-1", lambda c, r: _has_step(c, "attr", "segsz")
-        and "operandSegmentSizes" not in r["info"].hidden and "operandSegmentSizes" in (r["custom_why"] or "")),
+        and "operandSegmentSizes" not in r["info"].hidden
+        and (r["custom_why"] or "").startswith("attributes differ: [('operandSegmentSizes'")),
     ("C05-kf-2", lambda c, r: _has_step(c, "attr", "propname")),
     ("C05-kf-3", lambda c, r: c["op"] == "pdl.replace" and c["follower"] == "val"
         and not r["inst"]["operands"][[n for n, _ in r["info"].od.operands].index("repl_operation")]),
-    ("C05-kf-4", lambda c, r: c["op"] == "smt.declare_fun" and bool(r["inst"]["attrs"])
-        and "namePrefix" not in dict(map(tuple, r["inst"]["props"]))),
+    ("C05-kf-4", lambda c, r: _optional_attr_swallows_dict(c, r)),
     ("C05-kf-5", _is_function_type_result),
 ]
 
